@@ -228,7 +228,7 @@ func (r *Run) Violation(key, what string, detail any) {
 	v.Replay = path
 	r.violations = append(r.violations, v)
 	fmt.Printf("VIOLATION property=%s replay=%s\n", r.ID, path)
-	fmt.Printf("  what: %s\n  key: %s\n", what, key)
+	fmt.Printf("  what: %s\n  key: %s\n", printable(what), printable(key))
 }
 
 // Violations returns how many (unknown) violations were recorded.
@@ -320,3 +320,9 @@ func (r *Run) Finish(required ...string) int {
 }
 
 func (r *Run) replayingLocked() bool { return r.replayKey != "" }
+
+// printable escapes bytes that would turn the report into a binary file.
+func printable(s string) string {
+	q := strconv.QuoteToASCII(s)
+	return q[1 : len(q)-1]
+}
